@@ -614,7 +614,7 @@ pub fn judge_l(case: &LCase, end: &SimEnd, o: &LObs) -> LVerdict {
     if o.conns.len() != case.conns.len() {
         return LVerdict { violations: v, inconclusive: true, probes };
     }
-    let multi = case.conns.len() > 1;
+    let multi = case.conns.len() + case.clients.len() > 1;
     // connections a worker was busy with when the peers were released
     let in_service_at_release = o
         .conns
@@ -773,6 +773,21 @@ pub fn judge_l(case: &LCase, end: &SimEnd, o: &LObs) -> LVerdict {
                                 // every slot is taken: waiting is what the bound demands
                                 continue;
                             }
+                            if stranded && multi {
+                                // the same observation contradicts C13 as well: connections that merely
+                                // sit there keep this one from being served
+                                v.push(viol(
+                                    "C13",
+                                    "blocked-by-other-connections",
+                                    format!(
+                                        "connection {} had sent {} bytes of complete requests but no worker ever picked it up while {} other connection(s) were open (max_worker_threads={})",
+                                        i,
+                                        sent.len(),
+                                        in_service_at_release,
+                                        case.max
+                                    ),
+                                ));
+                            }
                             v.push(viol(
                                 if stranded { "C14" } else if multi { "C13" } else { "C01" },
                                 if stranded { "connection-stranded" } else { "not-served-while-others-stalled" },
@@ -881,7 +896,8 @@ fn judge_real_client(case: &LCase, k: usize, rc: &RealClient, ro: &RealObs, v: &
     let mut dead = false;
     for (oi, (op, outs)) in rc.ops.iter().zip(ro.outcomes.iter()).enumerate() {
         if op.mode == 2 {
-            if outs.len() != 1 || (outs[0] != "Ok" && !(dead && conn_level_err(&outs[0]))) {
+            // once the server has ended the connection a write may or may not fail
+            if outs.len() != 1 || (outs[0] != "Ok" && !((dead || ro.srv_shutdown) && conn_level_err(&outs[0]))) {
                 v.push(viol("C04", "client-oneway", format!("real client {} op #{} oneway({}) returned {:?}", k, oi, op.method, outs)));
             }
             prev_oneway = true;
@@ -935,7 +951,9 @@ fn judge_real_client(case: &LCase, k: usize, rc: &RealClient, ro: &RealObs, v: &
             if complete {
                 ok &= outs.len() == group.len();
             } else {
-                ok &= outs.len() == group.len() + 1 && outs.last().map_or(false, |o| conn_level_err(o));
+                // the stream broke: the next item must be a connection-level error (how the iterator
+                // goes on after that is not specified by any property)
+                ok &= outs.len() > group.len() && outs[group.len()..].iter().all(|o| conn_level_err(o));
             }
             if !ok {
                 v.push(viol(
@@ -1403,6 +1421,106 @@ fn cut_steps(conn: usize, stream_len: usize, cuts: &[usize], wait: &[bool]) -> V
         }
     }
     steps
+}
+
+/// a client operation equivalent to a request kind of the alphabet
+pub fn cop_of(cfg: &SvcCfg, k: crate::alphabet::Kind, token: &str) -> COp {
+    let req = crate::alphabet::build(cfg, k, token);
+    let mode = if req.get("oneway") == Some(&json!(true)) {
+        2
+    } else if req.get("more") == Some(&json!(true)) {
+        1
+    } else {
+        0
+    };
+    COp {
+        method: req["method"].as_str().unwrap_or("").to_string(),
+        params: req.get("parameters").cloned().unwrap_or(Value::Null),
+        mode,
+    }
+}
+
+/// K2: a real client against the real server: every pattern of oneway() / call() / more() up to 6
+/// operations (C04's client clause), plus random longer mixes
+pub fn c04_k2_spaces(tier: Tier) -> Vec<Space> {
+    use crate::alphabet::{Base, Flags, Kind};
+    let cfg = SvcCfg::basic();
+    let mut spaces = Vec::new();
+    {
+        let cfg = cfg.clone();
+        let maxlen = if tier == Tier::Quick { 5u32 } else { 6 };
+        let mut size = 0u64;
+        for l in 1..=maxlen {
+            size += 2u64.pow(l);
+        }
+        spaces.push(Space {
+            name: "K2.oneway.patterns",
+            size,
+            exhaustive: false,
+            gen: Box::new(move |mut idx, seed| {
+                let mut rng = Rng::new(seed);
+                let mut len = 1u32;
+                loop {
+                    if idx < 2u64.pow(len) {
+                        break;
+                    }
+                    idx -= 2u64.pow(len);
+                    len += 1;
+                }
+                let bases = [Base::Echo, Base::GetInfo, Base::UnknownIface, Base::PingOk, Base::Fail, Base::NoDot, Base::PingBadType];
+                let ops: Vec<COp> = (0..len)
+                    .map(|i| {
+                        let oneway = idx >> i & 1 == 1;
+                        let b = if oneway { *rng.pick(&bases) } else { *rng.pick(&bases[..6]) };
+                        cop_of(&cfg, Kind(b, if oneway { Flags::ONEWAY } else { Flags::NONE }), &format!("k0-{}", i))
+                    })
+                    .collect();
+                let mut lc = LCase::single(&cfg, LConn::healthy(&[]), vec![], SchedCfg::random(&mut rng, 1));
+                lc.conns.clear();
+                lc.clients = vec![RealClient { ops, cli_read_plan: vec![], srv_read_plan: vec![] }];
+                Case::L(lc)
+            }),
+        });
+    }
+    {
+        let n = if tier == Tier::Quick { 1_500 } else { 50_000 };
+        spaces.push(Space {
+            name: "K2.mixed.random",
+            size: n,
+            exhaustive: false,
+            gen: Box::new(move |_idx, seed| {
+                let mut rng = Rng::new(seed);
+                let full = crate::alphabet::full();
+                let nclients = rng.range(1, 3) as usize;
+                let mut clients = Vec::new();
+                for c in 0..nclients {
+                    let ops: Vec<COp> = (0..rng.range(1, 8))
+                        .map(|i| {
+                            let k = if rng.chance(1, 3) { Kind(*rng.pick(crate::alphabet::ALL_BASES), Flags::ONEWAY) } else { *rng.pick(&full) };
+                            cop_of(&cfg, k, &format!("k{}-{}", c, i))
+                        })
+                        .collect();
+                    clients.push(RealClient {
+                        ops,
+                        cli_read_plan: if rng.chance(1, 2) { (0..rng.range(1, 30)).map(|_| rng.range(1, 60) as u16).collect() } else { vec![] },
+                        srv_read_plan: if rng.chance(1, 2) { (0..rng.range(1, 30)).map(|_| rng.range(1, 60) as u16).collect() } else { vec![] },
+                    });
+                }
+                let mut lc = LCase::single(&cfg, LConn::healthy(&[]), vec![], SchedCfg::random(&mut rng, 1));
+                lc.conns.clear();
+                // sometimes a raw peer beside the real clients
+                if rng.chance(1, 3) {
+                    let kinds: Vec<_> = (0..rng.range(1, 5)).map(|_| *rng.pick(&full)).collect();
+                    let s = token_stream(&cfg, &kinds, 0);
+                    lc.conns.push(LConn::healthy(&s));
+                    lc.steps = vec![Step::Connect(0), Step::Send(0, s.len())];
+                }
+                lc.clients = clients;
+                Case::L(lc)
+            }),
+        });
+    }
+    spaces
 }
 
 pub fn c01_spaces(tier: Tier) -> Vec<Space> {
